@@ -16,6 +16,7 @@ import (
 	"time"
 
 	chain "github.com/comdex-official/comdex/app"
+	utils "github.com/comdex-official/comdex/types"
 	"github.com/comdex-official/comdex/app/wasm/bindings"
 	assettypes "github.com/comdex-official/comdex/x/asset/types"
 	auctiontypes "github.com/comdex-official/comdex/x/auction/types"
@@ -48,12 +49,14 @@ type c09Fix struct {
 	products []uint64
 	users    []sdk.AccAddress
 	height   int64
+	tOffset  int64 // seconds added to the block clock by time jumps (so that interest accrual matters)
 	lend     bool   // lend fixture present (generation 2 only)
 	lendCol  uint64 // collateral asset of the same-pool borrows (LA)
 	lendCol2 uint64 // collateral asset of the cross-pool borrows (LB)
 	lendIDs  []uint64    // lend positions referenced by the borrows of the last pre-state
 	tlKeys   [][2]uint64 // (pool, asset) whose TotalLend / TotalBorrowed the last pre-state printed
 	tbKeys   [][2]uint64
+	accr     map[uint64]sdk.Dec // per borrow: InterestAccumulated after the accrual, AT THE STATE in which the coming sweep will ask for it
 	poolMod  string // lend pool module name
 }
 
@@ -191,8 +194,12 @@ func c09Build(t *testing.T, app *chain.App, ctx sdk.Context, gen int, rng *Rng, 
 			if rng.Chance(50) {
 				closing = sdk.NewDecWithPrec(int64(rng.Range(1, 30)), 3)
 			}
+			stab := sdk.ZeroDec()
+			if rng.Chance(40) {
+				stab = sdk.NewDecWithPrec(int64(rng.Range(10, 250)), 3) // interest accrues; x/rewards books it at interactions and at seizure
+			}
 			ep := bindings.MsgAddExtendedPairsVault{
-				AppID: appID, PairID: pairID, StabilityFee: sdk.ZeroDec(), ClosingFee: closing,
+				AppID: appID, PairID: pairID, StabilityFee: stab, ClosingFee: closing,
 				LiquidationPenalty: sdk.MustNewDecFromStr("0.12"), DrawDownFee: sdk.ZeroDec(), IsVaultActive: true,
 				DebtCeiling: sdk.NewIntFromUint64(1 << 62), DebtFloor: sdk.NewInt(1000), IsStableMintVault: false,
 				MinCr: minCr, PairName: "P" + alphaName(int(appID)*10+j), AssetOutOraclePrice: rng.Chance(60),
@@ -206,6 +213,9 @@ func c09Build(t *testing.T, app *chain.App, ctx sdk.Context, gen int, rng *Rng, 
 	}
 	// whitelisting / enabling
 	for _, appID := range f.apps {
+		if rng.Chance(85) {
+			_ = app.Rewardskeeper.WhitelistAppIDVault(ctx, appID) // vault interest is only calculated for such apps
+		}
 		if gen == 2 {
 			if rng.Chance(90) {
 				f.setWl2(appID, rng.Chance(90))
@@ -417,7 +427,10 @@ func (f *c09Fix) borrowRecords() []c09Borrow {
 		debt := bp.AmountOut.Amount.Add(bp.InterestAccumulated.TruncateInt())
 		ipost := bp.InterestAccumulated
 		if !bp.IsLiquidated {
-			if acc, err := f.app.LendKeeper.CalculateBorrowInterestForLiquidation(cctx, id); err == nil {
+			if x, ok := f.accr[id]; ok {
+				ipost = x
+				debt = bp.AmountOut.Amount.Add(x.TruncateInt())
+			} else if acc, err := f.app.LendKeeper.CalculateBorrowInterestForLiquidation(cctx, id); err == nil {
 				debt = acc.AmountOut.Amount.Add(acc.InterestAccumulated.TruncateInt())
 				ipost = acc.InterestAccumulated
 			}
@@ -512,6 +525,7 @@ func (f *c09Fix) borrowStats(before bool, judged map[uint64]string) map[uint64]s
 		}
 		out[r.id] = kind
 		f.tr.Count("borrow:judged:" + kind)
+		f.borrowAccrualStat(r)
 		if kind != "same" {
 			a1, _ := f.app.AssetKeeper.GetAsset(f.ctx, r.assetIn)
 			a2, _ := f.app.AssetKeeper.GetAsset(f.ctx, r.assetOut)
@@ -688,12 +702,14 @@ func (f *c09Fix) post(preLid, preAid uint64) []string {
 // one block: the REAL BeginBlocker of the generation under test, on the live context (a panic is an outcome)
 func (f *c09Fix) block() string {
 	f.height++
-	f.ctx = f.ctx.WithBlockHeight(f.height).WithBlockTime(time.Unix(1700000000+f.height*6, 0).UTC())
+	f.ctx = f.ctx.WithBlockHeight(f.height).WithBlockTime(time.Unix(1700000000+f.height*6+f.tOffset, 0).UTC())
 	f.envLine()
+	f.accr = f.borrowAccruals()
 	pre := f.pre()
 	lid, aid := f.ids()
 	var p bool
 	judged := f.borrowStats(true, nil)
+	lag := f.vaultAccrualStats(nil)
 	bctx, write := f.ctx.CacheContext() // so that a panicking hook leaves a well-defined state for the next block
 	if f.gen == 2 {
 		p, _ = try(func() { liquidationsV2.BeginBlocker(bctx, abci.RequestBeginBlock{}, f.app.NewliqKeeper) })
@@ -708,6 +724,7 @@ func (f *c09Fix) block() string {
 		write()
 		f.tr.Count("block:ok")
 		f.borrowStats(false, judged)
+		f.vaultAccrualStats(lag)
 	}
 	if l2, _ := f.ids(); l2 > lid {
 		f.tr.Stats["seized:sweep"] += int(l2 - lid)
@@ -722,6 +739,7 @@ func (f *c09Fix) block() string {
 // a liquidate message from a random user
 func (f *c09Fix) liquidateMsg(id uint64, appID uint64, liqType uint64) {
 	f.envLine()
+	f.accr = nil
 	pre := f.pre()
 	lid, aid := f.ids()
 	from := f.users[f.rng.Intn(len(f.users))].String()
@@ -770,6 +788,11 @@ func (f *c09Fix) aimPrice(v vaulttypes.Vault, delta int64) {
 	tot := v.AmountOut.Add(v.InterestAccumulated).Add(v.ClosingFeeAccumulated)
 	if v.AmountIn.IsZero() {
 		return
+	}
+	if ip := f.intPost(v); ip.GT(v.InterestAccumulated) && f.rng.Chance(60) {
+		// aim between the ratio on the recorded debt and the ratio after the accrual the seizure would book
+		tot = tot.Add(ip.Sub(v.InterestAccumulated).QuoRaw(2))
+		f.tr.Count("op:aimprice:accrual-band")
 	}
 	vout := sdk.NewDecFromInt(tot).MulInt(sdk.NewIntFromUint64(pout)).QuoInt(aout.Decimals)
 	// price* = MinCr · vout · decIn / amountIn
@@ -835,6 +858,9 @@ func (f *c09Fix) runSequence(nBlocks int) {
 				}
 				f.setPrice(id, np, true)
 				f.tr.Count("op:price")
+			case q < 76: // time passes: hours to weeks
+				f.tOffset += int64(rng.Range(3600, 30*86400))
+				f.tr.Count("op:timejump")
 			case q < 78: // price goes inactive / comes back
 				id := f.assets[rng.Intn(len(f.assets))]
 				tw, _ := f.app.MarketKeeper.GetTwa(f.ctx, id)
@@ -1305,7 +1331,12 @@ func (f *c09Fix) aimBorrowAt(r c09Borrow, mode int, delta int64) {
 	a2, _ := f.app.AssetKeeper.GetAsset(f.ctx, r.assetOut)
 	tw2, _ := f.app.MarketKeeper.GetTwa(f.ctx, r.assetOut)
 	// ratio = debt·pOut/dOut / (amtIn·pIn/dIn) = target  ⇒  pIn = debt·pOut·dIn / (dOut·amtIn·target)
-	p := sdk.NewDecFromInt(r.debt).MulInt64(int64(tw2.Twa)).MulInt(a1.Decimals).QuoInt(a2.Decimals).QuoInt(r.amountIn).Quo(target).TruncateInt()
+	debt := r.debt
+	if pre := r.principal.Add(r.interestPre.TruncateInt()); pre.LT(r.debt) && f.rng.Chance(60) {
+		debt = pre.Add(r.debt).QuoRaw(2) // between the ratio before and after the in-memory accrual
+		f.tr.Count("op:aimborrow:accrual-band")
+	}
+	p := sdk.NewDecFromInt(debt).MulInt64(int64(tw2.Twa)).MulInt(a1.Decimals).QuoInt(a2.Decimals).QuoInt(r.amountIn).Quo(target).TruncateInt()
 	if !p.IsUint64() || p.IsZero() {
 		return
 	}
@@ -1502,4 +1533,95 @@ func c09WitnessTransitBand(t *testing.T, app *chain.App, base sdk.Context, tr *T
 			f.liquidateMsg(r.id, 3, 1)
 		}
 	}
+}
+
+// statistics only: vaults whose ratio is at or above the liquidation ratio on the recorded debt but below it after the
+// accrual the seizure would book (the code decides on the recorded debt: such a vault must stay), and seizures whose
+// locked vault carries freshly booked interest
+func (f *c09Fix) vaultAccrualStats(before map[uint64]bool) map[uint64]bool {
+	if before != nil {
+		for id := range before {
+			if _, ok := f.app.VaultKeeper.GetVault(f.ctx, id); !ok {
+				f.tr.Count("vault:accrual-band:seized")
+			}
+		}
+		return nil
+	}
+	out := map[uint64]bool{}
+	for _, v := range f.app.VaultKeeper.GetVaults(f.ctx) {
+		ip := f.intPost(v)
+		if !ip.GT(v.InterestAccumulated) {
+			continue
+		}
+		f.tr.Count("vault:with-unbooked-interest")
+		ep, _ := f.app.AssetKeeper.GetPairsVault(f.ctx, v.ExtendedPairVaultID)
+		pre := f.realCR(v)
+		v2 := v
+		v2.InterestAccumulated = ip
+		post := f.realCR(v2)
+		if pre != nil && post != nil && pre.GTE(ep.MinCr) && post.LT(ep.MinCr) {
+			f.tr.Count("vault:accrual-band")
+			out[v.Id] = true
+		}
+	}
+	return out
+}
+
+// statistics only: a borrow whose ratio is at or below its threshold before the in-memory accrual and above it after
+func (f *c09Fix) borrowAccrualStat(r c09Borrow) {
+	pre := r.principal.Add(r.interestPre.TruncateInt())
+	if !pre.LT(r.debt) {
+		return
+	}
+	f.tr.Count("borrow:judged-with-accrual")
+	a1, _ := f.app.AssetKeeper.GetAsset(f.ctx, r.assetIn)
+	a2, _ := f.app.AssetKeeper.GetAsset(f.ctx, r.assetOut)
+	base := r.lt
+	if r.emode {
+		base = r.elt
+	}
+	th := base
+	if !r.bridged.IsZero() {
+		th = base.Mul(r.ltT2)
+		if r.bridgedAsset == r.t1 {
+			th = base.Mul(r.ltT1)
+		}
+	}
+	var x, y sdk.Dec
+	var e1, e2 error
+	p, _ := try(func() {
+		x, e1 = f.app.LendKeeper.CalculateCollateralizationRatio(f.ctx, r.amountIn, a1, pre, a2)
+		y, e2 = f.app.LendKeeper.CalculateCollateralizationRatio(f.ctx, r.amountIn, a1, r.debt, a2)
+	})
+	if !p && e1 == nil && e2 == nil && x.LTE(th) && y.GT(th) {
+		f.tr.Count("borrow:judged-accrual-band")
+	}
+}
+
+// The interest a borrow has accrued depends on the pool's utilisation, which earlier seizures of the same pass change.
+// The external value is therefore taken at the state in which the sweep will ask for it: the real per-borrow steps are
+// run, in the sweep's order and wrapped like the sweep wraps them, on a throw-away branch.
+func (f *c09Fix) borrowAccruals() map[uint64]sdk.Dec {
+	if !f.lend || f.gen != 2 {
+		return nil
+	}
+	out := map[uint64]sdk.Dec{}
+	cctx, _ := f.ctx.CacheContext()
+	ids, _ := f.app.LendKeeper.GetBorrows(cctx)
+	h, _ := f.app.NewliqKeeper.GetLiquidationOffsetHolder(cctx, liq2types.VaultLiquidationsOffsetPrefix, 1)
+	batch := int(f.app.NewliqKeeper.GetParams(cctx).LiquidationBatchSize)
+	st, en := liq2types.GetSliceStartEndForLiquidations(len(ids), int(h.CurrentOffset), batch)
+	if st == en {
+		st, en = liq2types.GetSliceStartEndForLiquidations(len(ids), 0, batch)
+	}
+	for _, id := range ids[st:en] {
+		id := id
+		try(func() {
+			if acc, err := f.app.LendKeeper.CalculateBorrowInterestForLiquidation(cctx, id); err == nil {
+				out[id] = acc.InterestAccumulated
+			}
+			_ = utils.ApplyFuncIfNoError(cctx, func(c sdk.Context) error { return f.app.NewliqKeeper.LiquidateIndividualBorrow(c, id, "", false) })
+		})
+	}
+	return out
 }
